@@ -700,7 +700,14 @@ void SoPlexBase<R>::_storeSolutionReal(bool verify)
    else if(_realLP != &_solver)
    {
       assert(_solver.isScaled());
+      typename SPxBasisBase<R>::SPxStatus scaledBasisStatus = _solver.getBasisStatus();
+
       _loadRealLP(false);
+
+      // loading the LP clears the basis descriptor of the solver: hand the stored basis back (as done after
+      // unsimplifying), otherwise all later basis queries read an undefined descriptor
+      _solver.setBasisStatus(scaledBasisStatus);
+      _solver.setBasis(_basisStatusRows.get_const_ptr(), _basisStatusCols.get_const_ptr());
    }
 
    // unscale stored solution (removes persistent scaling)
